@@ -1,4 +1,5 @@
 import ElaVerif.Model.Compact
+import ElaVerif.Lemmas.Compact
 import ElaVerif.Gen.C09
 /-!
 # C09 — proof-of-work target encoding, PoW check, retarget
@@ -35,6 +36,158 @@ theorem C09_pow_iff (bits : Nat) (limit h : Int) :
 /-- non-vacuity: the regnet limit target with a small hash is accepted. -/
 example : checkPoW 0x207fffff (2 ^ 255 - 1) 12345 = none := by decide
 
+/-! ## Codec -/
+
+/-- Encoding a positive target never yields a larger target — for **every** positive integer
+    (also beyond 2^256: when the byte length exceeds 255 the `uint32` cut of the exponent only
+    makes the decoded value smaller). -/
+theorem C09_never_larger (n : Int) (h : 0 < n) : compactToBig (bigToCompact n) ≤ n := by
+  obtain ⟨a, rfl⟩ := Int.eq_ofNat_of_zero_le (Int.le_of_lt h)
+  have ha : 0 < a := by omega
+  obtain ⟨r, hr, hle, _⟩ := compactToBig_bigToCompact_pos ha
+  have := (encMag_bounds ha).1
+  rw [hr]; omega
+
+/-- non-vacuity / strictness: 2^24+1 loses its low byte. -/
+example : compactToBig (bigToCompact 16777217) = 16777216 := by decide
+
+/-- The encoder keeps at least 15 significant bits: the re-decoded target `r` satisfies
+    `r ≤ n ≤ r + r/2^15` (for targets of at most 254 bytes, so the exponent fits in 8 bits;
+    every target below 2^256 has at most 32 bytes, see `C09_len_256`). -/
+theorem C09_encode_precision (n : Int) (h : 0 < n) (hn : byteLen n.toNat ≤ 254) :
+    n ≤ compactToBig (bigToCompact n) + compactToBig (bigToCompact n) / 2 ^ 15 := by
+  obtain ⟨a, rfl⟩ := Int.eq_ofNat_of_zero_le (Int.le_of_lt h)
+  have ha : 0 < a := by omega
+  have hl : byteLen a ≤ 254 := by simpa using hn
+  obtain ⟨r, hr, _, heq⟩ := compactToBig_bigToCompact_pos ha
+  have := (encMag_bounds ha).2
+  rw [hr, heq (by omega)]
+  have : ((encMag a : Nat) : Int) / 2 ^ 15 = ((encMag a / 2 ^ 15 : Nat) : Int) := by simp
+  omega
+
+/-- every target below 2^256 is short enough for the 8-bit exponent. -/
+theorem C09_len_256 (n : Int) (hn : n < 2 ^ 256) : byteLen n.toNat ≤ 254 := by
+  have h : n.toNat < 2 ^ (8 * 32) := by omega
+  have := byteLen_le h
+  omega
+
+example : (0 : Int) < 16777217 ∧ byteLen (16777217 : Int).toNat ≤ 254 := by decide
+
+/-- Decoding a canonical compact value and re-encoding it is the identity. -/
+theorem C09_roundtrip (c : Nat) (h : Canonical c) : bigToCompact (compactToBig c) = c := by
+  rcases h with rfl | ⟨hc, hs, he1, hm1, h1, h2⟩
+  · rw [compactToBig_zero, bigToCompact_zero]
+  · have hm2 : c % 2 ^ 23 < 2 ^ 23 := Nat.mod_lt _ (by omega)
+    have he : c / 2 ^ 24 ≤ 255 := by omega
+    have hc' : c = (c / 2 ^ 24) * 2 ^ 24 + c % 2 ^ 23 := by omega
+    have key := roundtrip_core he1 he hm1 hm2 (by intro h; have := h1 h; omega) (by intro h; have := h2 h; omega)
+    rw [← compactToBig_pack hm2, ← hc'] at key
+    omega
+
+/-- non-vacuity: bitcoin's genesis bits, the regnet limit bits and short-exponent values are
+    canonical; a mantissa below 0x008000 is not canonical and indeed does not round-trip.
+    Note that the mainnet `PowLimitBits` 0x1f0008ff itself is *not* canonical (it re-encodes to
+    0x1e08ff00, the same target). -/
+example : Canonical 0x207fffff ∧ Canonical 0x1d00ffff ∧ Canonical 0x02008000 ∧ Canonical 0x01120000 := by decide
+example : ¬ Canonical 0x1d007fff ∧ bigToCompact (compactToBig 0x1d007fff) = 0x1c7fff00 := by decide
+example : ¬ Canonical 0x1f0008ff ∧ bigToCompact (compactToBig 0x1f0008ff) = 0x1e08ff00 ∧
+    compactToBig 0x1e08ff00 = compactToBig 0x1f0008ff := by decide
+
+/-- The encoder only produces canonical values (non-negative targets of at most 254 bytes), so
+    `Canonical` is exactly the set of encoder outputs that `C09_roundtrip` speaks about. -/
+theorem C09_encode_canonical (n : Int) (h : 0 ≤ n) (hn : byteLen n.toNat ≤ 254) : Canonical (bigToCompact n) := by
+  obtain ⟨a, rfl⟩ := Int.eq_ofNat_of_zero_le h
+  by_cases ha0 : a = 0
+  · subst ha0; left; exact bigToCompact_zero
+  have ha : 0 < a := by omega
+  have hl : byteLen a ≤ 254 := by simpa using hn
+  obtain ⟨h1, h2, h3⟩ := byteLen_spec ha
+  obtain ⟨hlo, hhi⟩ := mant0_bounds h1 h2 h3
+  rw [bigToCompact_pos ha]
+  right
+  have hmod : ∀ k, k ≤ 255 → k % 256 = k := by intro k hk; omega
+  rw [hmod _ (by omega), hmod _ (by omega)]
+  have hm1 : byteLen a = 1 → mant0Of (byteLen a) a = a * 2 ^ 16 := by intro h; rw [h]; simp [mant0Of]
+  have hm2 : byteLen a = 2 → mant0Of (byteLen a) a = a * 2 ^ 8 := by intro h; rw [h]; simp [mant0Of]
+  generalize mant0Of (byteLen a) a = m at *
+  generalize byteLen a = e at *
+  split
+  · refine ⟨by omega, by omega, by omega, by omega, ?_, ?_⟩
+    · intro h; omega
+    · intro h
+      have : e = 1 := by omega
+      have := hm1 this
+      omega
+  · refine ⟨by omega, by omega, by omega, by omega, ?_, ?_⟩
+    · intro h
+      have : e = 1 := by omega
+      have := hm1 this
+      omega
+    · intro h
+      have : e = 2 := by omega
+      have := hm2 this
+      omega
+
+/-! ## Retarget -/
+
+/-- The retargeted value never exceeds the proof-of-work limit. -/
+theorem C09_newTarget_le_limit (cfg : RetargetCfg) (old : Nat) (actual : Int) :
+    newTarget cfg old actual ≤ cfg.limit := by
+  unfold newTarget; simp only []; split <;> omega
+
+theorem C09_clampSpan_bounds (cfg : RetargetCfg) (actual : Int) (h : cfg.minSpan ≤ cfg.maxSpan) :
+    cfg.minSpan ≤ clampSpan cfg actual ∧ clampSpan cfg actual ≤ cfg.maxSpan := by
+  unfold clampSpan; split
+  · omega
+  · split <;> omega
+
+/-- Upper side of "moves by at most the adjustment factor": for a non-negative old target the
+    new target is at most `old · maxSpan / targetSpan` (= `old · adjustmentFactor` on the built-in
+    networks, see `C09_retarget_mainnet`). -/
+theorem C09_newTarget_upper (cfg : RetargetCfg) (old : Nat) (actual : Int)
+    (hspan : cfg.minSpan ≤ cfg.maxSpan) (hT : 0 < cfg.targetSpan) (hold : 0 ≤ compactToBig old) :
+    newTarget cfg old actual ≤ (compactToBig old * cfg.maxSpan) / cfg.targetSpan := by
+  have hc := (C09_clampSpan_bounds cfg actual hspan).2
+  have hmul : compactToBig old * clampSpan cfg actual ≤ compactToBig old * cfg.maxSpan :=
+    Int.mul_le_mul_of_nonneg_left hc hold
+  have hdiv := Int.ediv_le_ediv hT hmul
+  unfold newTarget; simp only []
+  split
+  · rename_i hgt; simp only [Int.ediv] at *; exact Int.le_trans (Int.le_of_lt hgt) hdiv
+  · exact hdiv
+
+/-- Lower side: the new target (before compaction) is at least
+    `min (old · minSpan / targetSpan) limit`. -/
+theorem C09_newTarget_lower (cfg : RetargetCfg) (old : Nat) (actual : Int)
+    (hspan : cfg.minSpan ≤ cfg.maxSpan) (hT : 0 < cfg.targetSpan) (hold : 0 ≤ compactToBig old) :
+    min ((compactToBig old * cfg.minSpan) / cfg.targetSpan) cfg.limit ≤ newTarget cfg old actual := by
+  have hc := (C09_clampSpan_bounds cfg actual hspan).1
+  have hmul : compactToBig old * cfg.minSpan ≤ compactToBig old * clampSpan cfg actual :=
+    Int.mul_le_mul_of_nonneg_left hc hold
+  have hdiv := Int.ediv_le_ediv hT hmul
+  unfold newTarget; simp only []
+  split
+  · exact Int.min_le_right _ _
+  · exact Int.le_trans (Int.min_le_left _ _) hdiv
+
+/-- Compaction of the new target only rounds down (non-negative new target) … -/
+theorem C09_nextBits_rounds_down (cfg : RetargetCfg) (old : Nat) (actual : Int)
+    (h : 0 ≤ newTarget cfg old actual) :
+    compactToBig (nextBits cfg old actual) ≤ newTarget cfg old actual := by
+  unfold nextBits
+  by_cases h0 : newTarget cfg old actual = 0
+  · rw [h0]; decide
+  · exact C09_never_larger _ (by omega)
+
+/-- … and whatever the sign of the old target, the decoded new bits never exceed the limit. -/
+theorem C09_nextBits_le_limit (cfg : RetargetCfg) (old : Nat) (actual : Int) (hl : 0 ≤ cfg.limit) :
+    compactToBig (nextBits cfg old actual) ≤ cfg.limit := by
+  have hle := C09_newTarget_le_limit cfg old actual
+  by_cases h : 0 ≤ newTarget cfg old actual
+  · exact Int.le_trans (C09_nextBits_rounds_down cfg old actual h) hle
+  · unfold nextBits
+    exact Int.le_trans (compactToBig_bigToCompact_neg (by omega)) hl
+
 /-- T-gen: the three built-in networks use adjustment factor 4, a one-day
     timespan and two-minute blocks, and the compact limit decodes below the
     big-integer limit (so a header carrying `limitBits` passes the limit test). -/
@@ -44,5 +197,101 @@ theorem C09_gen_params :
     Gen.C09.testnet = Gen.C09.mainnet ∧ Gen.C09.regnet = Gen.C09.mainnet ∧
     Gen.C09.instant.limitBits = 0x207fffff := by
   decide
+
+/-- T-gen: what `blockchain.New` derives from the regenerated mainnet parameters. -/
+theorem C09_gen_mainnet_cfg :
+    Gen.C09.mainnet.cfg = ⟨21600, 345600, 86400, 2 ^ 255 - 1⟩ ∧
+    Gen.C09.mainnet.blocksPerRetarget = 720 ∧ Gen.C09.mainnet.limitBits ≠ 0x207fffff := by
+  decide
+
+/-- T-gen: `blockchain.New` still derives the retarget window the way `PowParams.cfg`,
+    `PowParams.blocksPerRetarget` and the harness hook do. -/
+theorem C09_gen_derivation :
+    Gen.C09.newDerivation =
+      ["targetTimespan := int64(chainParams.PowConfiguration.TargetTimespan / time.Second)",
+       "targetTimePerBlock := int64(chainParams.PowConfiguration.TargetTimePerBlock / time.Second)",
+       "adjustmentFactor := chainParams.PowConfiguration.AdjustmentFactor",
+       "minRetargetTimespan := targetTimespan / adjustmentFactor",
+       "maxRetargetTimespan := targetTimespan * adjustmentFactor",
+       "blocksPerRetarget := uint32(targetTimespan / targetTimePerBlock)"] := by
+  decide
+
+/-- **Retarget on the (regenerated) mainnet parameters.**  At a retarget height, for a
+    non-negative previous target `old`, whatever the two timestamps are, the new bits `nb`
+    * decode to at most the proof-of-work limit,
+    * decode to at most `4·old` (adjustment factor 4),
+    * lose at most the compaction error below `min (old/4) limit`
+      (`old/4 = old·minSpan/targetSpan` is the un-compacted lower clamp),
+    * are a canonical compact value. -/
+theorem C09_retarget_mainnet (prevHeight prevBits firstTs prevTs nb : Nat)
+    (hh : prevHeight ≠ 0) (hr : (prevHeight + 1) % 2 ^ 32 % 720 = 0)
+    (hold : 0 ≤ compactToBig prevBits)
+    (hres : calcNext Gen.C09.mainnet prevHeight prevBits firstTs prevTs = some nb) :
+    compactToBig nb ≤ Gen.C09.mainnet.limit ∧
+    compactToBig nb ≤ 4 * compactToBig prevBits ∧
+    min (compactToBig prevBits / 4) Gen.C09.mainnet.limit
+      ≤ compactToBig nb + compactToBig nb / 2 ^ 15 ∧
+    Canonical nb := by
+  obtain ⟨hcfg, hbpr, hlb⟩ := C09_gen_mainnet_cfg
+  have hlim : Gen.C09.mainnet.limit = 2 ^ 255 - 1 := by decide
+  unfold calcNext at hres
+  rw [hbpr] at hres
+  rw [if_neg (by intro h; rcases h with h | h; exact hh h; exact hlb h)] at hres
+  rw [if_neg (by omega)] at hres
+  have h720 : ¬ (prevHeight + 1 < 720) := by
+    intro hlt
+    rw [Nat.mod_eq_of_lt (by omega : prevHeight + 1 < 2 ^ 32), Nat.mod_eq_of_lt hlt] at hr
+    omega
+  rw [if_neg h720] at hres
+  have hnb : nb = nextBits Gen.C09.mainnet.cfg prevBits (actualSpan firstTs prevTs) := by
+    injection hres with h; exact h.symm
+  subst hnb
+  generalize actualSpan firstTs prevTs = actual
+  rw [hcfg, hlim]
+  generalize hc : (⟨21600, 345600, 86400, 2 ^ 255 - 1⟩ : RetargetCfg) = cfg
+  have f1 : cfg.minSpan = 21600 := by rw [← hc]
+  have f2 : cfg.maxSpan = 345600 := by rw [← hc]
+  have f3 : cfg.targetSpan = 86400 := by rw [← hc]
+  have f4 : cfg.limit = 2 ^ 255 - 1 := by rw [← hc]
+  have hle : newTarget cfg prevBits actual ≤ 2 ^ 255 - 1 := f4 ▸ C09_newTarget_le_limit cfg prevBits actual
+  have hup : newTarget cfg prevBits actual ≤ compactToBig prevBits * 345600 / 86400 := by
+    have := C09_newTarget_upper cfg prevBits actual (by omega) (by omega) hold
+    rwa [f2, f3] at this
+  have hlo : min (compactToBig prevBits * 21600 / 86400) (2 ^ 255 - 1) ≤ newTarget cfg prevBits actual := by
+    have := C09_newTarget_lower cfg prevBits actual (by omega) (by omega) hold
+    rwa [f1, f3, f4] at this
+  have hnn : 0 ≤ newTarget cfg prevBits actual := by
+    have : 0 ≤ compactToBig prevBits * 21600 / 86400 := by omega
+    have : 0 ≤ min (compactToBig prevBits * 21600 / 86400) (2 ^ 255 - 1) := by
+      rw [Int.min_def]; split <;> omega
+    omega
+  have hdown : compactToBig (nextBits cfg prevBits actual) ≤ newTarget cfg prevBits actual :=
+    C09_nextBits_rounds_down cfg prevBits actual hnn
+  have hlen : byteLen (newTarget cfg prevBits actual).toNat ≤ 254 := C09_len_256 _ (by omega)
+  have hcan : Canonical (nextBits cfg prevBits actual) := C09_encode_canonical _ hnn hlen
+  have hprec : newTarget cfg prevBits actual ≤
+      compactToBig (nextBits cfg prevBits actual) + compactToBig (nextBits cfg prevBits actual) / 2 ^ 15 := by
+    by_cases h0 : newTarget cfg prevBits actual = 0
+    · unfold nextBits; rw [h0, bigToCompact_zero, compactToBig_zero]; decide
+    · exact C09_encode_precision _ (by omega) hlen
+  refine ⟨by omega, by omega, ?_, hcan⟩
+  have e1 : compactToBig prevBits * 21600 / 86400 = compactToBig prevBits / 4 := by omega
+  rw [e1] at hlo
+  exact Int.le_trans hlo hprec
+
+/-- non-vacuity: height 719→720 on mainnet with a four-times-too-fast period halves… quarters the
+    target: old 0x1d00ffff, timestamps 0 and 100 s give 0x1c3fffc0. -/
+example : calcNext Gen.C09.mainnet 719 0x1d00ffff 1500000000 1500000100 = some 0x1c3fffc0 := by decide
+example : (719 + 1) % 2 ^ 32 % 720 = 0 ∧ (0 : Int) ≤ compactToBig 0x1d00ffff := by decide
+
+/-- Off a retarget height the bits are inherited unchanged (mainnet). -/
+theorem C09_retarget_mainnet_keep (prevHeight prevBits firstTs prevTs : Nat)
+    (hh : prevHeight ≠ 0) (hr : (prevHeight + 1) % 2 ^ 32 % 720 ≠ 0) :
+    calcNext Gen.C09.mainnet prevHeight prevBits firstTs prevTs = some prevBits := by
+  obtain ⟨_, hbpr, hlb⟩ := C09_gen_mainnet_cfg
+  unfold calcNext
+  rw [hbpr]
+  rw [if_neg (by intro h; rcases h with h | h; exact hh h; exact hlb h)]
+  rw [if_pos hr]
 
 end ElaVerif.C09
